@@ -50,7 +50,7 @@ func Check() *core.Check {
 	return &core.Check{
 		ID:    "C01",
 		Level: "exploration",
-		Rule: "case = one source text from {G1 grammar generator over the whole accepted syntax, G2 token-level mutation of G1 output or of a frozen corpus snippet, G3 raw bytes, G4 built-in API fuzzer: every callable/accessor reachable from the global object called with hostile receivers/arguments from a fixed pool (detaching valueOf, revoked proxies, species subclasses, lying iterators, Go wrappers), G5 binding-resolution matrix: declaration kind x placement forcing (captured, arguments, eval, generator) x access context (with, eval, arrow, class members, default params, loops) x access operation}, " +
+		Rule: "case = one source text from {G1 grammar generator over the whole accepted syntax, G2 token-level mutation of G1 output or of a frozen corpus snippet, G3 raw bytes, G4 built-in API fuzzer: every callable/accessor reachable from the global object called with hostile receivers/arguments from a fixed pool (detaching valueOf, revoked proxies, species subclasses, lying iterators, Go wrappers), G5 binding-resolution matrix: declaration kind x placement forcing (captured, arguments, eval, generator) x access context (with, eval, arrow, class members, default params, loops) x access operation, G6 lexical stress: string/template/numeric/regexp/identifier/comment literals from the full lexical grammar and its malformed neighbourhood in 12 embeddings, G7 generator/async driver stress: bodies with yields in and out of try/finally/loops driven by arbitrary next/throw/return sequences from for-of, destructuring, spread, jobs}, " +
 			"bracket nesting <= 200 and size <= 64 KiB; run through Parse, Compile(sloppy,strict), RunProgram on a fresh Runtime (+ second run on the same Runtime), function-body, direct eval, indirect eval, Function(); " +
 			"non-trivial = the text passed the parser (reached the compiler or VM); distinct = distinct source texts",
 		Assumptions: []string{
@@ -80,7 +80,7 @@ func genInput(c *core.Ctx) (kind, src string) {
 		return "corpus", corpus.Snippets[c.Index]
 	}
 	for attempt := 0; attempt < 5; attempt++ {
-		switch r.PickW([]int{30, 18, 18, 5, 17, 12}) {
+		switch r.PickW([]int{26, 15, 15, 4, 15, 10, 8, 7}) {
 		case 0:
 			g := jsgen.New(r.Fork(), r.Range(10, 120))
 			kind, src = "G1", g.Program()
@@ -96,8 +96,12 @@ func genInput(c *core.Ctx) (kind, src string) {
 			kind, src = "G3", jsgen.RawBytes(r)
 		case 4:
 			kind, src = "G4", g4Program(r)
-		default:
+		case 5:
 			kind, src = "G5", g5Program(r)
+		case 6:
+			kind, src = "G6", g6Program(r)
+		default:
+			kind, src = "G7", g7Program(r)
 		}
 		if len(src) <= 65536 && jsgen.BracketDepth(src) <= 200 && jsgen.MaxRun(jsgen.Tokenize(src)) <= 200 {
 			return
